@@ -126,4 +126,9 @@ class ThinPlateSplines(Alignment, Transform, Invertible):
 
         :type: ``type(self)``
         """
-        return ThinPlateSplines(self.target, self.source, kernel=self.kernel)
+        return ThinPlateSplines(
+            self.target,
+            self.source,
+            kernel=type(self.kernel)(self.target.points),
+            min_singular_val=self.min_singular_val,
+        )
